@@ -3,6 +3,14 @@ jpv-peggo: the recogniser DECOMPILED from the rule functions of jsonpath.peg.go 
 on every run by the `pegrules` generator) executed by the same interpreter and action machine as jpv-peg.
 
   (ID goparse ACC (s c1 c2 …)) → as `parse` of jpv-peg, but the recogniser runs on Gen.goGrammar
+  (ID gorun ACC (s c1 c2 …))   → same answer format, but the recogniser is `RunGo.parseGoRules`: the decompiled rule
+                                  functions executed with the templates of the generated code on the REGENERATED Go runtime
+                                  (reset/add/memoize/memoizedResult/matchDot over the state RT, memoisation enabled);
+                                  the action machine then runs on `RunGo.stream goNum` of the final state
+                                  (tree[:tokenIndex], PegText/Action kinds). A Go panic of the runtime → `(ID (gopanic))`,
+                                  which no expectation equals.
+  (ID gorunpos (s c1 c2 …))    → (ID OUTCOME POSITION TOKENINDEX NTOKS), OUTCOME ∈ ok/fail/panic/fuel: the final state of
+                                  the same run (NTOKS = length of the PegText/Action stream); for debugging
 
 A separate executable on purpose: when the generator refuses a hand-edited rule function, Gen/PegGoRules.lean is
 deleted and only THIS driver stops building; jpv-peg (grammar read from jsonpath.peg) stays available for the
@@ -12,6 +20,7 @@ import JPV.Peg.ParseModel
 import JPV.Peg.ExtDriver
 import JPV.Gen.PegGoRules
 import JPV.Peg.MemoHash
+import JPV.Peg.RunGoNum
 import JPV.Dump
 import JPV.Registry
 open JPV JPV.Sexp JPV.Peg
@@ -38,6 +47,12 @@ def outcomeSexp : ParseOutcome → List Sexp
   | .panic p => [.list [.atom "panic", .atom (panicStr p)]]
   | .unmodelled => [.atom "unmodelled"]
 
+/-- the tail of `parseModel`: the action machine on the token stream of a successful recognition -/
+def outcomeOfToks (env : Env) (ext : Ext) (cfg : Cfg) (input : Array Char) (toks : List Peg.Tok) : ParseOutcome :=
+  match exec ⟨env, ext, cfg.accessor, input⟩ toks with
+  | .ok ch => .ok ch
+  | .error st => outcomeOfStop input st
+
 /-- `parseModel` with the recogniser run on the decompiled rule functions -/
 def parseModelGo (env : Env) (ext : Ext) (cfg : Cfg) (s : String) : ParseOutcome :=
   let input := s.toList.toArray
@@ -46,10 +61,24 @@ def parseModelGo (env : Env) (ext : Ext) (cfg : Cfg) (s : String) : ParseOutcome
   match (runM (T := HashMemo) Gen.goGrammar (fuelFor input.size) (ruleBody Gen.goGrammar "expression") input 0 MState.init).1 with
   | .outOfFuel => .unmodelled
   | .fail => .unmodelled
-  | .ok _ toks =>
-    match exec ⟨env, ext, cfg.accessor, input⟩ toks with
-    | .ok ch => .ok ch
-    | .error st => outcomeOfStop input st
+  | .ok _ toks => outcomeOfToks env ext cfg input toks
+
+/-- `gorun`: the recogniser is `Parse()` on the decompiled rule functions over the regenerated runtime;
+`none` = the runtime panicked -/
+def parseModelRun (env : Env) (ext : Ext) (cfg : Cfg) (s : String) : Option ParseOutcome :=
+  let input := s.toList.toArray
+  if !actionsAsExpected then some .unmodelled else
+  match RunGo.parseGoRules (fuelFor input.size) input false with
+  | (.outOfFuel, _) => some .unmodelled
+  | (.fail, _) => some .unmodelled
+  | (.panic, _) => none
+  | (.ok, st) => some (outcomeOfToks env ext cfg input (RunGo.stream RunGo.goNum st))
+
+def runPos (s : String) : List Sexp :=
+  let input := s.toList.toArray
+  let (o, st) := RunGo.parseGoRules (fuelFor input.size) input false
+  let name := match o with | .ok => "ok" | .fail => "fail" | .panic => "panic" | .outOfFuel => "fuel"
+  [.atom name, ofNat st.position, ofNat st.tokenIndex, ofNat (RunGo.stream RunGo.goNum st).length]
 
 def answer (line : String) : String :=
   match Sexp.parse line with
@@ -60,6 +89,20 @@ def answer (line : String) : String :=
       | some i => (Sexp.list [id, .list [.atom "actions-changed", ofNat i]]).toStr
       | none => (Sexp.list (id :: outcomeSexp (parseModelGo Registry.env driverExt ⟨acc⟩ s))).toStr
     | _, _ => (Sexp.list [id, .atom "bad-case"]).toStr
+  | some (.list [id, .atom "gorun", acc, s]) =>
+    match asBool? acc, asString? s with
+    | some acc, some s =>
+      match actionsMismatch with
+      | some i => (Sexp.list [id, .list [.atom "actions-changed", ofNat i]]).toStr
+      | none =>
+        match parseModelRun Registry.env driverExt ⟨acc⟩ s with
+        | some o => (Sexp.list (id :: outcomeSexp o)).toStr
+        | none => (Sexp.list [id, .list [.atom "gopanic"]]).toStr
+    | _, _ => (Sexp.list [id, .atom "bad-case"]).toStr
+  | some (.list [id, .atom "gorunpos", s]) =>
+    match asString? s with
+    | some s => (Sexp.list (id :: runPos s)).toStr
+    | none => (Sexp.list [id, .atom "bad-case"]).toStr
   | _ => "(? bad-line)"
 
 partial def loop (h : IO.FS.Stream) (out : IO.FS.Stream) : IO Unit := do
